@@ -18,6 +18,7 @@ import MetricsVerif.Driver.Cow
 import MetricsVerif.Driver.Bucket
 import MetricsVerif.Driver.Reservoir
 import MetricsVerif.Driver.Statsd
+import MetricsVerif.Driver.StatsdFwd
 import MetricsVerif.Driver.Registry
 import MetricsVerif.Driver.Debugging
 import MetricsVerif.Driver.Allowlist
@@ -47,6 +48,7 @@ structure DState where
   layers : Option Layers.St := none
   tracing : Option Tracing.DSt := none
   statsd : Statsd.St := none
+  sfwd : Option StatsdFwd.St := none
 
 def step (st : DState) (line : String) : DState × String :=
   -- a new case starts from fresh states; only the process-wide global recorder of `debug` (C19) lives on
@@ -91,6 +93,10 @@ def step (st : DState) (line : String) : DState × String :=
   | "statsd" :: args =>
     match Statsd.handle st.statsd args with
     | some (w, o) => ({ st with statsd := w }, o)
+    | none => (st, "bad-op")
+  | "sfwd" :: args =>
+    match StatsdFwd.handle st.sfwd args with
+    | some (w, o) => ({ st with sfwd := w }, o)
     | none => (st, "bad-op")
   | "registry" :: args =>
     match Registry.handle st.registry args with
